@@ -17,7 +17,10 @@ fn strs(v: &Value) -> Vec<String> {
 
 fn flat_case_source(case: &Value) -> flat::Rendered {
     let items: Vec<flat::Item> = strs(&case["b"]).iter().map(|s| flat::Item::parse(s)).collect();
-    flat::render_with_decoy(&items, &strs(&case["consts"]), &strs(&case["params"]), &strs(&case["decoy"]))
+    // "layout": dimensions of the rendering that are no part of the rule (flat::Layout)
+    let mut lay = flat::Layout::from_json(&case["layout"]);
+    lay.decoy = strs(&case["decoy"]);
+    flat::render_layout(&items, &strs(&case["consts"]), &strs(&case["params"]), &lay)
 }
 
 fn replay_flat(args: &[String]) {
